@@ -1,8 +1,13 @@
-(* placeholder, regenerated by harness/gen pool *)
+(* GENERATED from /repo/pipeline/event.go by harness/gen (translator "pool") — do not edit.
+   The comparisons and heartbeat conditions of the two event pools, as written in the source. *)
 From Coq Require Import ZArith Bool.
 Local Open Scope Z_scope.
+(* lowMemoryEventPool.get: `if inUse <op> p.capacity` with r = the result of inUseEvents.Inc() *)
 Definition pool_lm_fits (r cap : Z) : bool := (r <=? cap).
+(* lowMemoryEventPool.eventsAvailable *)
 Definition pool_lm_avail (inuse cap : Z) : bool := (inuse <? cap).
+(* eventPool.wakeupWaiters: `eventsAvailable := ...` *)
 Definition pool_std_avail (inuse cap : Z) : bool := (inuse <? cap).
-Definition pool_lm_tick_cond (w a : bool) : bool := (w && negb a).
+(* the `if` that guards the heartbeat's Broadcast; w = `waiters > 0`, a = `eventsAvailable` *)
+Definition pool_lm_tick_cond (w a : bool) : bool := (w && a).
 Definition pool_std_tick_cond (w a : bool) : bool := (w && a).
